@@ -48,6 +48,8 @@ def gen(c):
             lines += ['perm.set obj=1 data=%s' % hx(st), 'perm.permute obj=1 r=%d' % r]
             c.distinct([('perm', r, st)])
         # chained permutations and a copy
+        if i < 4:
+            for r in (0, 4, 6): lines += ['perm.set obj=1 data=%s' % hx(st), 'perm.permute obj=1 r=%d via=macro' % r]     # ascon_permute12 / 8 / 6
         # release / acquire (a conversion between the byte form and the operational form on some back ends) changes nothing
         lines += ['perm.permute obj=1 r=%d' % rng.randrange(12), 'perm.release_acquire obj=1', 'perm.permute obj=1 r=0', 'perm.release_acquire obj=1',
                   'perm.add obj=1 off=%d data=%s' % (rng.randrange(33), hx(pattern(rng, 7))), 'perm.release_acquire obj=1',
